@@ -1,28 +1,40 @@
-"""Per-property configuration of ./check."""
-PROPS = {
-    'C16': {'props': 'Props/C16.v', 'driver': 'Extract/DrvC16.v', 'harness': 'c16',
-            'assumptions': ['None models the ConstructError that struct_parse wraps into ELFParseError',
-                            'stream = BytesIO over the generated bytes']},
-}
+"""Per-property configuration of ./check, discovered from tools/harness/cNN.py.
+Each harness module defines
+  CONFIG = {'props': 'Props/Cnn.v', 'driver': 'Extract/DrvCnn.v', 'assumptions': [...], 'trusted_extra': [...]}
+  LEVEL  = {'text': ..., 'design_ref': ..., 'technique': ..., 'note': ...}
+  CLAIMED = True            # only then is it listed in MANIFEST.json
+"""
+import importlib, os, re
 
-_COMMON_NOTE = ('Trusted: Coq 8.16.1 kernel; the hand model is tied to the Python source by the differential '
-                'correspondence (extracted OCaml of the same definitions vs. the implementation); extraction with '
-                'ExtrOcamlBasic only; no axioms (Print Assumptions: Closed under the global context). ')
+_HDIR = os.path.join(os.path.dirname(os.path.abspath(__file__)), 'harness')
 
-LEVEL = {
-    'C16': {'text': 'Machine-checked round-trip, exact-consumption and truncation theorems for every primitive decoder '
-                    '(all valid LEB128 encodings incl. non-minimal, total agreement with the arithmetic reading on all '
-                    'byte strings, all fixed-int widths, chunked C strings of any length/offset, blocks, initial length), '
-                    'for unbounded inputs; the model is a line-by-line transliteration pinned to the code by an exhaustive '
-                    '(<=2/3-byte LEB prefixes) and boundary correspondence.',
-            'design_ref': '4.16', 'technique': 'Coq proof (induction, bit-arithmetic lemmas) + extracted-model correspondence',
-            'note': _COMMON_NOTE + 'Modelled not verified: construct FormatField/CString/PrefixedArray generic machinery, BytesIO.'},
-}
+COMMON_NOTE = ('Trusted: Coq 8.16.1 kernel; the hand model is tied to the Python source by the differential '
+               'correspondence (extracted OCaml of the same definitions vs. the implementation) and Gen files '
+               'regenerated from /repo on every run; extraction with ExtrOcamlBasic only; no axioms '
+               '(Print Assumptions: Closed under the global context). ')
+
+PROPS = {}
+LEVEL = {}
+CLAIMED = set()
+for _f in sorted(os.listdir(_HDIR)):
+    _m = re.match(r'^(c\d\d)\.py$', _f)
+    if not _m:
+        continue
+    _mod = importlib.import_module('tools.harness.' + _m.group(1))
+    _pid = _m.group(1).upper()
+    _cfg = dict(getattr(_mod, 'CONFIG', {}))
+    _cfg.setdefault('props', 'Props/%s.v' % _pid)
+    _cfg.setdefault('driver', 'Extract/Drv%s.v' % _pid)
+    _cfg['harness'] = _m.group(1)
+    PROPS[_pid] = _cfg
+    LEVEL[_pid] = getattr(_mod, 'LEVEL', None)
+    if getattr(_mod, 'CLAIMED', False) and LEVEL[_pid]:
+        CLAIMED.add(_pid)
 
 NOT_APPLICABLE = {
     'C18': 'oracle is the external GNU readelf binary: no formal object to state a theorem against; deciding it means '
            'side-by-side differential runs, i.e. another technique (DESIGN 4.18)',
 }
 for _p in ['C%02d' % i for i in range(1, 21)]:
-    if _p not in PROPS and _p not in NOT_APPLICABLE:
+    if _p not in CLAIMED and _p not in NOT_APPLICABLE:
         NOT_APPLICABLE[_p] = 'not yet claimed: model/proof under construction (see DESIGN.md section 7)'
